@@ -185,4 +185,81 @@ theorem processEntry_shape (o : Opts) (k : Kind) :
   obtain ⟨po, ig, m⟩ := o
   cases po <;> cases ig <;> cases m <;> cases k <;> decide
 
+/-! ### 6. one `Scanner` value, several `Scan` calls
+
+The counters are fields of the `Scanner` value; `Scan` returns `StartIndex + s.certsProcessed`.  What the prologue
+of `Scan` has to establish for all the theorems above to hold for EVERY scan of a sequence on one value — not only
+for the first, which finds the zero-initialised fields of `NewScanner` — is `certsProcessed = 0` (and likewise for
+the other three counters, which only feed the statistics): -/
+
+/-- After the prologue the scan starts in exactly the state in which the scan of a fresh `Scanner` starts,
+    whatever earlier scans have left in the object. -/
+theorem initOn_reset (ob : Obj) (start stop batch nf nm : Nat) (scriptOf : Nat → List Tok) :
+    initOn (resetCounters ob) start stop batch nf nm scriptOf = init start stop batch nf nm scriptOf := rfl
+
+/-- Hence every scan of a sequence on one value IS the scan of a fresh `Scanner` with the same parameters: all of
+    `interleaving_invariant`, `interleaving_exactly_once`, `scan_return`, `terminates`, … apply to it unchanged. -/
+theorem scanSeq_eq_fresh (ob : Obj) (cs : List ScanCfg) :
+    scanSeq ob cs = cs.map (fun c => (scanReturn c.start (scanFresh c), scanFresh c)) := by
+  induction cs generalizing ob with
+  | nil => rfl
+  | cons c cs ih => simp only [scanSeq, List.map_cons, ih]; rfl
+
+/-- `scan_return` for every scan of a sequence: each returns ITS OWN start index plus the number of entries IT
+    processed, for every content of the object before the first scan, all schedules and all server scripts. -/
+theorem scanSeq_return (ob : Obj) (cs : List ScanCfg) :
+    (scanSeq ob cs).map (fun p => p.1) = cs.map (fun c => c.start + (scanFresh c).processed.length) := by
+  rw [scanSeq_eq_fresh, List.map_map]
+  apply List.map_congr_left
+  intro c _
+  exact scan_return c.start c.stop c.batch c.nf c.nm c.scriptOf c.sched
+
+/-- exactly-once for every scan of a sequence -/
+theorem scanSeq_exactly_once (ob : Obj) (cs : List ScanCfg)
+    (h : ∀ c ∈ cs, 1 ≤ c.batch ∧ c.start ≤ c.stop ∧ 1 ≤ c.nf ∧ 1 ≤ c.nm ∧ finished (scanFresh c) = true) :
+    ∀ p ∈ scanSeq ob cs, ∃ c ∈ cs, p.2 = scanFresh c ∧ p.1 = c.stop
+      ∧ p.2.processed.Perm (List.range' c.start (c.stop - c.start)) := by
+  rw [scanSeq_eq_fresh]
+  intro p hp
+  obtain ⟨c, hc, rfl⟩ := List.mem_map.mp hp
+  obtain ⟨hb, hle, hnf, hnm, hfin⟩ := h c hc
+  have := interleaving_exactly_once c.start c.stop c.batch c.nf c.nm c.scriptOf hb hle hnf hnm c.sched hfin
+  exact ⟨c, hc, rfl, this.2, this.1⟩
+
+example : ∃ c : ScanCfg, 1 ≤ c.batch ∧ c.start ≤ c.stop ∧ 1 ≤ c.nf ∧ 1 ≤ c.nm ∧ finished (scanFresh c) = true :=
+  ⟨⟨0, 1, 1, 1, 1, fun _ => [], [.f 0, .f 0, .f 0, .f 0, .f 0, .m 0, .m 0]⟩, by
+    simp [scanFresh, finished, run, init, ranges, step, stepF, stepM, serve, allDone]⟩
+
+/-- The reset is NECESSARY: the workers only ever add to the counter, so a scan that starts with a leftover
+    `certsProcessed = ob.certs` (prologue missing) processes exactly the same entries but returns
+    `start + ob.certs + processed` — the sum over all scans so far instead of its own count. -/
+theorem scan_return_leftover (ob : Obj) (start stop batch nf nm : Nat) (scriptOf : Nat → List Tok)
+    (sched : List Worker) :
+    (run (initOn ob start stop batch nf nm scriptOf) sched).processed
+        = (run (init start stop batch nf nm scriptOf) sched).processed
+      ∧ scanReturn start (run (initOn ob start stop batch nf nm scriptOf) sched)
+        = start + ob.certs + (run (init start stop batch nf nm scriptOf) sched).processed.length := by
+  have hi : initOn ob start stop batch nf nm scriptOf = addC ob.certs (init start stop batch nf nm scriptOf) := by
+    simp [initOn, addC, init]
+  have hr := scan_return start stop batch nf nm scriptOf sched
+  rw [hi, run_addC]
+  constructor
+  · rfl
+  · simp only [scanReturn, addC] at hr ⊢
+    omega
+
+/-- … so `Scan` returns "start index plus the number of entries processed" exactly when the counter it starts
+    from is 0: this is what `resetCounters` has to (and does) establish. -/
+theorem scan_return_iff_reset (ob : Obj) (start stop batch nf nm : Nat) (scriptOf : Nat → List Tok)
+    (sched : List Worker) :
+    scanReturn start (run (initOn ob start stop batch nf nm scriptOf) sched)
+        = start + (run (initOn ob start stop batch nf nm scriptOf) sched).processed.length
+      ↔ ob.certs = 0 := by
+  have h := scan_return_leftover ob start stop batch nf nm scriptOf sched
+  rw [h.1, h.2]
+  omega
+
+example : scanReturn 5 (run (initOn ⟨32, 0, 0, 0⟩ 5 7 1 1 1 (fun _ => [])) [.f 0, .f 0, .f 0, .m 0]) = 5 + 32 + 1 := by
+  simp [scanReturn, initOn, init, ranges, run, step, stepF, stepM, serve]
+
 end ZV.C17
